@@ -4,6 +4,10 @@
 # Copyright (C) 2013 Axel Tillequin (bdcht3@gmail.com)
 # published under GPLv2 license
 
+from amoco.logger import Log
+
+logger = Log(__name__)
+logger.debug("loading module")
 from .env import *
 from .utils import *
 
@@ -36,7 +40,10 @@ def __pcnpc(i_xxx):
 
 
 def trap(ins, fmap, trapname):
-    fmap.internals["trap"] = trapname
+    # the trap handler (tbr) is not modelled: the next location is unknown
+    logger.verbose("%s: %s trap" % (ins.mnemonic, trapname))
+    fmap[pc] = top(32)
+    fmap[npc] = top(32)
 
 
 # i_xxx is the translation of SPARC V8 instruction xxx.
